@@ -19,7 +19,7 @@ from .engine_p import ProcessSim, bootstrap
 ID = "C08"
 ENGINE = "P"
 ISOLATE = True  # every run in a forked child of the warmed parent
-RUNS = {"quick": 320, "thorough": 6000}
+RUNS = {"quick": 200, "thorough": 6000}
 BATCH_WALL_CAP = {"quick": 2400, "thorough": 8 * 3600}
 RUN_WALL_CAP = 900
 RECHECK = {"quick": 3, "thorough": 30}
